@@ -9,7 +9,7 @@ use crate::json::J;
 use crate::model::*;
 use crate::rng::Rng;
 
-pub const RULE: &str = "case = (alphabet, L, M, matrix kind, sequence kind) -> every arm (generic/sse2/avx2 direct, dispatch forced to each x86 arm and unforced; 32 and 16 columns) scores it in full, into a poisoned reused buffer and over row sub-ranges; every value is compared with an independent f64 model and across arms. Boundary lengths are enumerated on every run, random cases come from VERIF_SEED. A case is non-trivial when L >= M (at least one score exists); distinct = distinct digest of (alphabet, matrix, sequence).";
+pub const RULE: &str = "case = (alphabet, L, M, matrix kind, sequence kind) -> every arm (generic/sse2/avx2 direct, dispatch forced to each x86 arm and unforced; 32 and 16 columns) scores it in full, into a poisoned reused buffer and over row sub-ranges, on sequences whose look-ahead rows were built for shorter motifs first or for a longer motif (more look-ahead rows than needed); values are read through unstripe(), Index, the matrix cell, Vec::from(scores) and iter().rev(), which must agree; every value is compared with an independent f64 model and across arms. Boundary lengths are enumerated on every run, random cases come from VERIF_SEED. A case is non-trivial when L >= M (at least one score exists); distinct = distinct digest of (alphabet, matrix, sequence).";
 
 pub const REQUIRED: &[&str] = &[
     "arm.generic.dna.c32", "arm.sse2.dna.c32", "arm.avx2.dna.c32", "arm.dispatch[generic].dna.c32",
@@ -18,8 +18,9 @@ pub const REQUIRED: &[&str] = &[
     "arm.dispatch[sse2].protein.c32", "arm.dispatch[avx2].protein.c32",
     "arm.generic.dna.c16", "arm.sse2.dna.c16", "arm.generic.protein.c16", "arm.sse2.protein.c16",
     "dispatch_forced.generic", "dispatch_forced.sse2", "dispatch_forced.avx2",
-    "class.L<M", "class.L=M", "class.rows>32", "class.reconfigured_for_wider_motif", "class.reused_buffer_same_rows", "class.wildcard_in_window", "class.neg_inf_score",
+    "class.L<M", "class.L=M", "class.rows>32", "class.reconfigured_for_wider_motif", "class.wrap_exceeds_motif", "class.values_fill_last_column", "class.reused_buffer_same_rows", "class.wildcard_in_window", "class.neg_inf_score",
     "subrange.empty", "subrange.last_row", "subrange.inner",
+    "score_position.no_lookahead_rows", "score_position.too_few_lookahead_rows", "score_position.enough_lookahead_rows", "score_position.window_crosses_column",
 ];
 
 struct Input {
@@ -130,6 +131,28 @@ fn check_full<A: Alphabet, C: lightmotif::num::PositiveLength>(
         return None;
     }
     let flat = scores.unstripe();
+    // the remaining public ways of reading the values: Vec::from(scores), reverse iteration, nth
+    let owned: Vec<f32> = Vec::from(scores.clone());
+    let mut rev: Vec<f32> = scores.iter().rev().cloned().collect();
+    rev.reverse();
+    let same = |x: &[f32], y: &[f32]| x.len() == y.len() && x.iter().zip(y).all(|(a, b)| a.to_bits() == b.to_bits());
+    if !same(&owned, &flat) || !same(&rev, &flat) {
+        rep.violate(
+            "c01.accessors",
+            case,
+            format!(
+                "unstripe() gives {} values, Vec::from(scores) {} and iter().rev() {}; the three must be the same list",
+                flat.len(),
+                owned.len(),
+                rev.len()
+            ),
+            witness::<A>(inp, arm.name(), cols, J::Null),
+        );
+        return None;
+    }
+    if nvalid % r_rows.max(1) == 0 {
+        rep.cover("class.values_fill_last_column");
+    }
     let mut out = Vec::with_capacity(nvalid);
     let mut reported = false;
     for i in 0..nvalid {
@@ -248,7 +271,17 @@ fn run_alpha<A: Alphabet>(case: u64, rng: &mut Rng, rep: &mut Report, inp: &Inpu
             }
             rep.cover("class.reconfigured_for_wider_motif");
         }
+        if rng.chance(0.3) {
+            // the sequence served a LONGER motif before: more look-ahead rows than this motif needs
+            // (configure never shrinks them), which must not change any score
+            seq.configure_wrap(m - 1 + rng.range(1, 40));
+            rep.cover("class.wrap_exceeds_motif");
+        }
         seq.configure(&pssm);
+        if rng.chance(0.15) {
+            seq.configure_wrap(m - 1 + rng.range(1, 40));
+            rep.cover("class.wrap_exceeds_motif");
+        }
         let r_rows = seq.matrix().rows() - seq.wrap();
         if r_rows > 32 {
             rep.cover("class.rows>32");
@@ -370,11 +403,39 @@ fn run_alpha<A: Alphabet>(case: u64, rng: &mut Rng, rep: &mut Report, inp: &Inpu
                 }
             }
         }
-        // score_position on sampled positions
+        // score_position on sampled positions, on the configured sequence and on a sequence in
+        // another look-ahead state (none, too few for this motif, more than needed): score_position
+        // indexes the sequence and must not depend on the look-ahead rows at all
         if !exact.is_empty() {
-            for _ in 0..8 {
-                let i = rng.below(exact.len());
-                match guard(|| pssm.score_position(&seq, i)) {
+            let mut other: StripedSequence<A, U32> = stripe_generic(&enc);
+            match rng.below(3) {
+                0 => rep.cover("score_position.no_lookahead_rows"),
+                1 if m >= 3 => {
+                    other.configure_wrap(rng.range(1, m - 2));
+                    rep.cover("score_position.too_few_lookahead_rows");
+                }
+                _ => {
+                    other.configure_wrap(m - 1 + rng.range(0, 20));
+                    rep.cover("score_position.enough_lookahead_rows");
+                }
+            }
+            let o_rows = other.matrix().rows() - other.wrap();
+            for k in 0..16 {
+                let use_other = k >= 8;
+                let sq = if use_other { &other } else { &seq };
+                let rws = if use_other { o_rows } else { r_rows };
+                // half of the samples are windows that cross a column boundary
+                let mut i = rng.below(exact.len());
+                if k % 2 == 1 && rws >= 1 {
+                    let col = rng.below(32);
+                    let back = rng.below(m.min(rws));
+                    let cand = (col + 1) * rws;
+                    if cand >= back + 1 && cand - back - 1 < exact.len() {
+                        i = cand - back - 1;
+                        rep.cover("score_position.window_crosses_column");
+                    }
+                }
+                match guard(|| pssm.score_position(sq, i)) {
                     Err(p) => rep.violate(
                         &format!("c01.panic:{}", panic_site(&p)),
                         case,
@@ -405,6 +466,10 @@ fn run_alpha<A: Alphabet>(case: u64, rng: &mut Rng, rep: &mut Report, inp: &Inpu
     // ---- 16 columns -----------------------------------------------------------
     {
         let mut seq: StripedSequence<A, U16> = stripe_generic(&enc);
+        if rng.chance(0.3) {
+            seq.configure_wrap(m - 1 + rng.range(1, 40));
+            rep.cover("class.wrap_exceeds_motif");
+        }
         seq.configure(&pssm);
         let r_rows = seq.matrix().rows() - seq.wrap();
         for &arm in [Arm::Generic, Arm::Sse2].iter() {
